@@ -74,4 +74,10 @@ ImplAnswers(auth, names, qd, mode) ==
        /\ k.name \in ImplOwners(names, qd[i].name, TRUE, mode)
        /\ (MatchDefined(qd[i].qtype) => MatchQType(k.type, qd[i].qtype))
        /\ MatchQClass(k.class, qd[i].qclass)}
+
+\* the additional records build_reply attaches: address records found at exactly the target of an
+\* included SRV answer (lookup without subdomains)
+ImplAdditionals(auth, names, answers, mode) ==
+  {k \in auth : k.type \in {1, 28} /\ \E s \in answers :
+       s.type = 33 /\ s.rd # <<>> /\ k.name \in ImplOwners(names, SrvTarget(s), FALSE, mode)}
 =============================================================================
